@@ -75,6 +75,9 @@ class ConnSession:
         wf = self.spec.get("write_fault_after")
         if wf is not None:
             port.write_fault_after = wf
+        sw = self.spec.get("slow_writes")
+        if sw:
+            port.write_delay = lambda n, _sw=sw: _sw.get(str(n), 0)
         return port
 
     # -- callbacks
